@@ -5,6 +5,7 @@ from __future__ import annotations
 import numpy as np
 from hypothesis import strategies as st
 
+from mzverif import core
 from mzverif import gen as G
 from mzverif import lib as L
 from mzverif import model as M
@@ -150,6 +151,67 @@ def check_dataset(case: dict):
     return {"nt": len(eff) >= 2 and len(set(eff)) >= 2, "labels": ["batch", "idxs:none" if idxs is None else "idxs:list"]}
 
 
+def check_config_route(case: dict):
+    """the config-driven routes: RasterizedMazeDataset.from_config_augmented and make_numpy_collection (options travel through the
+    configuration; the arrays of the collection are the batches of all items)"""
+    from maze_dataset.dataset.rasterized import RasterizedMazeDataset, RasterizedMazeDatasetConfig, make_numpy_collection
+    from maze_dataset.generation.generators import GENERATORS_MAP
+
+    opts = tuple(case["opts"])
+    kw = dict(name="rc", grid_n=case["sizes"][0], n_mazes=case["n_mazes"], seed=case["seed"], maze_ctor=GENERATORS_MAP[case["ctor"]],
+              maze_ctor_kwargs=dict(case.get("kw", {})))
+    given = {"remove_isolated_cells": opts[0], "extend_pixels": opts[1], "endpoints_as_open": opts[2]}
+    if case.get("omit_default"):
+        given = {k: v for k, v in given.items() if v != {"remove_isolated_cells": True, "extend_pixels": True, "endpoints_as_open": False}[k]}
+    cfg = call("C17:config", lambda: RasterizedMazeDatasetConfig(**kw, **given))
+    fkw = dict(load_local=False, save_local=False, do_download=False)
+
+    def one(rds, sig):
+        total_iso = 0
+        for i, m in enumerate(rds.mazes):
+            g, sol = L.g_of(m), [list(q) for q in L.as_cells(m.solution)]
+            got = call(f"{sig}:getitem", rds.__getitem__, i)
+            total_iso += _compare(f"{sig}:getitem", got.numpy(), g, sol, opts)
+        return total_iso
+
+    try:
+        if case["route"] == "augmented":
+            rds = RasterizedMazeDataset.from_config_augmented(cfg, **fkw)
+            require(len(rds) == case["n_mazes"] and rds.cfg.grid_n == case["sizes"][0], "C17:augmented:dataset", f"{len(rds)} mazes, grid {rds.cfg.grid_n}")
+            one(rds, "C17:augmented")
+        else:
+            col = make_numpy_collection(cfg, list(case["sizes"]), from_config_kwargs=fkw, verbose=False)
+            require(sorted(col["arrays"]) == sorted(f"{n}x{n}" for n in case["sizes"]) == sorted(col["configs"]), "C17:collection:keys", f"{sorted(col['arrays'])}")
+            for n in case["sizes"]:
+                arr, c = np.asarray(col["arrays"][f"{n}x{n}"]), col["configs"][f"{n}x{n}"]
+                require(c.grid_n == n and (c.remove_isolated_cells, c.extend_pixels, c.endpoints_as_open) == opts, "C17:collection:config", f"{n}: {c.grid_n} {c.summary() if hasattr(c, 'summary') else c}")
+                # the same configuration, requested directly, gives the mazes whose images the array must hold
+                c2 = RasterizedMazeDatasetConfig.load(cfg.serialize())
+                c2.grid_n = n
+                rds = RasterizedMazeDataset.from_config_augmented(c2, **fkw)
+                require(arr.ndim == 5 and arr.shape[0] == 2 and arr.shape[1] == len(rds) == case["n_mazes"], "C17:collection:shape", f"{arr.shape} for {len(rds)} mazes")
+                for i, m in enumerate(rds.mazes):
+                    g, sol = L.g_of(m), [list(q) for q in L.as_cells(m.solution)]
+                    _compare("C17:collection:item", arr[:, i], g, sol, opts)
+    except ValueError as e:
+        if any(s_ in str(e) for s_ in ("no valid start or end positions", "larger sample than population", "high <= 0")):
+            raise core.Discard() from e
+        raise
+    return {"nt": case["n_mazes"] >= 2, "labels": ["route:" + case["route"], f"opts:{int(opts[0])}{int(opts[1])}{int(opts[2])}"]}
+
+
+@st.composite
+def _config_route(draw):
+    ctor = draw(st.sampled_from(["gen_dfs", "gen_dfs", "gen_wilson", "gen_dfs_percolation", "gen_percolation"]))
+    kw = {}
+    if ctor in ("gen_dfs_percolation", "gen_percolation"):
+        kw = {"p": draw(st.sampled_from([0.3, 0.5, 0.8]))}
+    route = draw(st.sampled_from(["augmented", "collection"]))
+    sizes = draw(st.lists(st.integers(2, 6), min_size=1, max_size=1 if route == "augmented" else 3, unique=True))
+    return {"route": route, "ctor": ctor, "kw": kw, "sizes": sizes, "n_mazes": draw(st.integers(1, 4)), "seed": draw(st.integers(0, 10**6)),
+            "opts": draw(_OPTS), "omit_default": draw(st.booleans())}
+
+
 _OPTS = st.tuples(st.booleans(), st.booleans(), st.booleans()).map(list)
 
 
@@ -183,4 +245,5 @@ def subs(tier: str):
         Sub("hand-mazes", check, "hypothesis", strategy=lambda: _hand(10), examples=80 if q else 1500),
         Sub("generated-mazes", check, "hypothesis", strategy=lambda: _gen(10), examples=60 if q else 1000),
         Sub("datasets-and-batches", check_dataset, "hypothesis", strategy=_dataset, examples=20 if q else 300),
+        Sub("config-routes", check_config_route, "hypothesis", strategy=_config_route, examples=10 if q else 150),
     ]
